@@ -17,9 +17,10 @@ package main
 //	                   notifyClosed, socket.Close, sess.Close, closeLocked, readDisconnected, redialForClientLocked,
 //	                   graceCtxWaitGroup / graceCallCmdWaitGroup Add/Done/Wait, spawn / run of startReadAndHandle and
 //	                   of the connection-level stages postAccept / postDial / postDisconnect; set
-//	flow_<root>        the complete flow (see flow.go; helpers such as graceCtxWait inlined) of session.closeLocked,
-//	                   readDisconnected, Close, redialForClient, write, SetID, peer.ServeConn, the accept literal of
-//	                   peer.serveListener, peer.Dial (without the redial literal) and the redial literal
+//	tpaths_<root>      the control-flow PATHS (see paths.go; helpers such as graceCtxWait inlined, conditions normalised,
+//	                   every event with the outcome that path decided) of session.closeLocked, readDisconnected, Close,
+//	                   redialForClient, write, SetID, peer.ServeConn, the accept literal of peer.serveListener, peer.Dial
+//	                   (without the redial literal) and the redial literal; with `tpaths_<root>_missing` per root
 //	lock_held_calls    (callee, calling function, `lock-held` | `no-lock`) for closeLocked and redialForClientLocked:
 //	                   is the call preceded, in the same function, by `<x>.lock.Lock()` that is only released by defer
 //	write_tokens       the condition under which session.write refuses (returns statConnClosed), as tokens
@@ -36,7 +37,7 @@ import (
 func init() {
 	register(Group{
 		Name: "Transitions",
-		Doc:  "The session status constants in iota order, every status store / compare-and-swap / check with its enclosing function, the callers of the hub, notify, wait-group, socket-close, reader-spawn and connection-hook operations, the ordered flows of the close, disconnect, accept, dial and redial paths, and the truth tables of write's refusal condition and of goonRead. Consumed by Teleport.Props.C07 (C07_status_order, C07_no_blind_store_outside_lock, C07_close_path_order, C07_fail_fast_condition), Teleport.Props.C08 (C08_close_waits_sites) and Teleport.Props.C16 (C16_accept_order).",
+		Doc:  "The session status constants in iota order, every status store / compare-and-swap / check with its enclosing function, the callers of the hub, notify, wait-group, socket-close, reader-spawn and connection-hook operations, the control-flow paths (path-sensitive, per-root `_missing`) of the close, disconnect, accept, dial and redial functions, and the truth tables of write's refusal condition and of goonRead. Consumed by Teleport.Props.C07 (C07_status_order, C07_no_blind_store_outside_lock, C07_close_path_order, C07_fail_fast_condition), Teleport.Props.C08 (C08_close_waits_sites) and Teleport.Props.C16 (C16_accept_order).",
 		Gen:  genTransitions,
 	})
 }
@@ -56,6 +57,24 @@ var transLifeKeys = map[string]bool{
 	"stage:postAccept": true, "stage:postDial": true, "stage:postDisconnect": true,
 }
 
+// transKeepPath: everything tracked except the reply-written flag and the markers of callbacks / spawned literals.
+func transKeepPath(kind, name string) bool {
+	switch kind {
+	case "flag", "cb":
+		return false
+	case "spawn":
+		return name == "startReadAndHandle"
+	case "loop":
+		return name == "back"
+	}
+	return true
+}
+
+// transStatusConstsQuiet: the status constants without emitting anything (for the path engine of other groups).
+func transStatusConstsQuiet(p *Pkg) []string {
+	return transStatusConsts(p, &Lean{group: "scratch"})
+}
+
 func transIsLife(e flEv) bool { return transLifeKeys[e.Key] || flKind(e) == "wg" }
 
 func genTransitions(r *Repo, l *Lean) {
@@ -70,7 +89,7 @@ func genTransitions(r *Repo, l *Lean) {
 
 	// ---- site tables: every function of the package, lexical attribution
 	var roots []flRoot
-	accRoot, accLit := x.litRoot("peer", "serveListener", "accept", flAcceptLits)
+	accRoot, accLit := x.litRoot("peer", "serveListener", "accept", x.acceptLits)
 	redRoot, redLit := x.litRoot("peer", "Dial", "redial", flRedialLits)
 	for _, f := range p.Files {
 		for _, d := range f.Decls {
@@ -175,20 +194,18 @@ func genTransitions(r *Repo, l *Lean) {
 	l.add("lock_held_calls", "(callee, calling function, lock-held | no-lock) for closeLocked and redialForClientLocked; sorted set",
 		"List (String × String × String)", flSortedRows(lockRows))
 
-	// ---- flows (with helper inlining)
+	// ---- paths (see paths.go; helpers such as graceCtxWait inlined), full vocabulary
 	for _, root := range x.standardRoots() {
 		if !transRoots[root.Name] {
 			continue
 		}
-		name := "flow_" + flLeanName(root.Name)
+		name := "tpaths_" + flLeanName(root.Name)
 		if root.why != "" {
-			l.Missing(name, root.why)
+			l.missingPaths(name, root.why)
 			continue
 		}
-		evs := x.walkRoot(root, false)
-		l.missing = append(l.missing, flUnplaced(name, evs)...)
-		l.add(name, "complete flow of "+root.Name+" (kind, name, detail, use class, enclosing conditions); ordered as in the source",
-			flEvType, flFlowLean(evs))
+		paths, missing := x.pathsOfRoot(root, consts, false)
+		l.addPaths(name, "paths of "+root.Name, pProject(paths, transKeepPath), missing)
 	}
 
 	// ---- write's refusal condition and goonRead
